@@ -100,7 +100,9 @@ fn lin_leq<Var: IntegerVariable + 'static>(
         terms.sum(monitor::w) <= c as i64,
     );
     let mut propagator = LinearLessOrEqualPropagator::new(vars.into(), c);
-    let outcome = protocol(&mut propagator, n, changes, backtrack_first, 2);
+    // this propagator only changes upper bounds and listens to lower bounds: it is never
+    // enqueued by its own propagations, one call per round is the whole fixed point
+    let outcome = protocol(&mut propagator, n, changes, backtrack_first, 1);
     if outcome.ok && !outcome.pending && all_fixed(n) {
         assert!(
             terms.sum(at_lb) <= c as i64,
@@ -117,6 +119,29 @@ verif_harness! {
         domains(2, 0);
         let c: i32 = kani::any();
         monitor::pick_points(2);
+        lin_leq(terms, terms.ids(), c, &[], false);
+    }
+}
+
+verif_harness! {
+    #[kani::unwind(4)]
+    fn lin_leq_ids_2_change() {
+        let terms = Terms::plain(2);
+        domains(2, 0);
+        let c: i32 = kani::any();
+        monitor::pick_points(2);
+        let changes = [Change::any(2)];
+        lin_leq(terms, terms.ids(), c, &changes, false);
+    }
+}
+
+verif_harness! {
+    #[kani::unwind(5)]
+    fn lin_leq_ids_3() {
+        let terms = Terms::plain(3);
+        domains(3, 0);
+        let c: i32 = kani::any();
+        monitor::pick_points(3);
         lin_leq(terms, terms.ids(), c, &[], false);
     }
 }
